@@ -144,6 +144,10 @@ var alphabet = func() []byte {
 	for i := 0; i < 6; i++ {
 		a = append(a, '=', '0', '1', '9', '|', ' ')
 	}
+	// any byte but SOH may stand in a value: a few control and non-ASCII ones
+	for _, c := range []byte{'\r', '\n', '\t', 0x00, 0x02, 0x7f, 0x80, 0xe9, 0xff, ' '} {
+		a = append(a, c)
+	}
 	a = append(a, 0x00, 0x02, 0x7f, 0xff, 0xc3, 0xa9, 0xe2, 0x82, 0xac, 0x80, '\n', '\t')
 	return a
 }()
